@@ -41,6 +41,12 @@ CLAIMED = {
     'C16': ('clang JSON AST: loop-shape rule + two-domain (log/prob) typing of the keep-test + normal forms; option-name plumbing over Python/Cython ASTs',
             'The per-word candidate loop bounds, early stop and threshold domain/normal form hold on every path; option names reach struct config unchanged.',
             'float comparison at the exact threshold not decided', 'DESIGN.md 2/C16'),
+    'C18': ('may-alias / effect analysis of all printer functions and Tree accessors (shallow-constructor model), with an embedded positive example',
+            'No encoder path stores into, deletes from or calls a mutating method on a value that may be or contain a caller-visible tree, category or token.',
+            'model of which library calls return fresh objects (sa/effects.py); lxml and ccg2lambda internals not analysed', 'DESIGN.md 2/C18'),
+    'C19': ('label-vocabulary closure between grammar result constructions and printer lookup tables, format dispatch exhaustiveness, placeholder-safe token / feature access lint over symbolic paths',
+            'Every label the grammars can emit is a key of the table indexed with it, every offered format is dispatched, and no printer reads a token field or feature member the failure placeholder lacks.',
+            'value-dependent failures (XML-illegal characters) and the ccg2lambda pipeline (needs nltk) not decided', 'DESIGN.md 2/C19'),
 }
 
 NOT_YET = {}
